@@ -1,1 +1,435 @@
-(* placeholder, being written *)
+(* Proofs/ReattachProofs.v — lemmas for property C16 (Mgr/Reattach.v), on top of the ring theorems of
+   Proofs/RingProofs.v (property C05). *)
+From Coq Require Import NArith ZArith List String Bool Lia.
+From IMB Require Import Gen.GenConsts Gen.GenLayout Gen.GenReset Mgr.Ring Mgr.Reset Mgr.Reattach
+                        Proofs.RingArith Proofs.RingProofs Proofs.ResetProofs.
+Import ListNotations.
+Local Open Scope N_scope.
+Local Notation length := List.length.
+
+Arguments table_entry : simpl never.
+Arguments ptr_offset : simpl never.
+Arguments feature_adjust : simpl never.
+Arguments find_arch : simpl never.
+Arguments find_variant : simpl never.
+Arguments select_tier : simpl never.
+Arguments reset_ooo_mgrs : simpl never.
+
+(* ------------------------------------------------------------------ what a step leaves alone *)
+(* [keeps s s']: ring indices, every slot, every OOO image below and above its road block are the
+   same; only the error code, flags/features, bound handlers, pointers and road blocks may differ *)
+Definition outside_rb (field : string) (a : N) : bool :=
+  match table_entry field with Some e => negb (in_range (oe_rb_off e) 8 a) | None => true end.
+
+Definition keeps (s s' : mgr) : Prop :=
+  (exists e, m_ring s' = set_errno e (m_ring s)) /\
+  (forall field, agree_on (outside_rb field) (m_ooo s' field) (m_ooo s field)).
+
+Lemma keeps_refl s : keeps s s.
+Proof.
+  split; [exists (errno (m_ring s)); destruct (m_ring s); reflexivity|]. intros f a _. reflexivity.
+Qed.
+
+Lemma keeps_trans s1 s2 s3 : keeps s1 s2 -> keeps s2 s3 -> keeps s1 s3.
+Proof.
+  intros [[e1 H1] O1] [[e2 H2] O2]. split.
+  - exists e2. rewrite H2, H1. reflexivity.
+  - intros f a Ha. rewrite (O2 f a Ha). apply O1. exact Ha.
+Qed.
+
+Lemma keeps_errno e s : keeps s (mgr_errno e s).
+Proof. split; [exists e; reflexivity|]. intros f a _. reflexivity. Qed.
+
+Lemma tier_init_noreset_keeps v s : keeps s (tier_init v false s).
+Proof.
+  unfold tier_init. destruct (negb (has_flags (m_features s) (v_req v))); [apply keeps_errno|].
+  split; [exists (errno (m_ring s)); cbn; destruct (m_ring s); reflexivity|]. intros f a _. reflexivity.
+Qed.
+
+Lemma arch_init_noreset_keeps cpu a s : arch_steps_ok a = true -> keeps s (arch_init_run cpu a false s).
+Proof.
+  intros Hst. destruct (has_flags (m_features s) (ai_req a)) eqn:Hreq.
+  - destruct (arch_init_shape cpu a false s Hst Hreq) as (p & E & _ & _ & _ & _ & _ & _ & _ & Ho & _ & _ & _ & _ & Hr).
+    rewrite E. cbn [arch_step_run].
+    assert (Hp : keeps s p).
+    { split; [exists 0%Z; exact Hr|]. intros f a0 _. rewrite Ho. reflexivity. }
+    destruct (find_variant (select_tier a (m_features p))) as [v|]; [|exact Hp].
+    eapply keeps_trans; [exact Hp|apply tier_init_noreset_keeps].
+  - unfold arch_init_run. rewrite Hreq. cbn [negb]. apply keeps_errno.
+Qed.
+
+(* the road-block store touches only the 8 bytes of the road block *)
+Lemma store_prims_outside off w : forall k v f a,
+  (forall j, (k <= j < k + N.of_nat w) -> a <> off + j) ->
+  run_prims (store_prims off w k v) f a = f a.
+Proof.
+  induction w as [|w IH]; intros k v f a H; [reflexivity|].
+  cbn [store_prims]. unfold run_prims. cbn [fold_left]. fold (run_prims (store_prims off w (k + 1) v) (apply_prim (PFill (off + k) 1 (byte_of v k)) f)).
+  rewrite IH.
+  - cbn. unfold in_range. specialize (H k). destruct (off + k <=? a) eqn:E1; [|reflexivity].
+    destruct (a <? off + k + 1) eqn:E2; [|reflexivity].
+    apply N.leb_le in E1. apply N.ltb_lt in E2. exfalso. apply H; lia.
+  - intros j Hj. apply H. lia.
+Qed.
+
+Definition step_noreset_ok (st : sp_step) : bool :=
+  match st with
+  | SpIfReset cases => forallb (fun c => (snd c =? 0) &&
+                                        match find_arch (snd (fst c)) with Some a => arch_steps_ok a | None => false end) cases
+  | _ => true
+  end.
+
+Lemma sp_run_keeps cpu flags base s st : step_noreset_ok st = true -> keeps s (sp_run cpu flags base false s st).
+Proof.
+  intros Hok. destruct st; cbn [sp_run].
+  - destruct (find (fun c => fst (fst c) =? m_arch s) cases) as [[[id name] k]|] eqn:E; [|apply keeps_refl].
+    apply find_some in E. destruct E as [Hin _]. cbn [step_noreset_ok] in Hok. rewrite forallb_forall in Hok.
+    specialize (Hok _ Hin). cbn [fst snd] in Hok. apply andb_true_iff in Hok. destruct Hok as [Hk Ha].
+    destruct (find_arch name) as [a|]; [|discriminate]. rewrite Hk. cbn [negb]. apply arch_init_noreset_keeps. exact Ha.
+  - apply keeps_errno.
+  - split; [exists (errno (m_ring s)); cbn; destruct (m_ring s); reflexivity|]. intros f a _. reflexivity.
+  - split; [exists (errno (m_ring s)); cbn; destruct (m_ring s); reflexivity|]. intros f a _. reflexivity.
+  - split; [exists (errno (m_ring s)); cbn; destruct (m_ring s); reflexivity|]. intros f a _. reflexivity.
+  - split; [exists (errno (m_ring s)); cbn; destruct (m_ring s); reflexivity|].
+    intros f a Ha. cbn [sp_run with_ooo m_ooo]. unfold outside_rb in Ha. destruct (table_entry f) as [e|]; [|reflexivity].
+    apply store_prims_outside. intros j Hj Heq. apply negb_true_iff in Ha. unfold in_range in Ha.
+    apply andb_false_iff in Ha. destruct Ha as [Ha|Ha]; [apply N.leb_gt in Ha|apply N.ltb_ge in Ha]; cbn in Hj; lia.
+Qed.
+
+Lemma fold_keeps cpu flags base l : forall s,
+  forallb step_noreset_ok l = true -> keeps s (fold_left (sp_run cpu flags base false) l s).
+Proof.
+  induction l as [|st l IH]; intros s H; cbn [fold_left]; [apply keeps_refl|].
+  cbn [forallb] in H. apply andb_true_iff in H. destruct H as [H1 H2].
+  eapply keeps_trans; [apply sp_run_keeps; exact H1|apply IH; exact H2].
+Qed.
+
+Lemma steps_noreset_ok : forallb step_noreset_ok set_pointers_steps = true.
+Proof. vm_compute. reflexivity. Qed.
+
+(* the statement order of imb_set_pointers_mb_mgr() in the current tree *)
+Lemma steps_shape : exists cs, set_pointers_steps = [SpIfReset cs; SpErrno0; SpFlags; SpFeatures; SpPtrs; SpRoadBlocks].
+Proof. eexists. reflexivity. Qed.
+
+(* road block bytes are not scheduling state: [0, rb_off) is outside the road block *)
+Lemma below_rb_outside field a : in_range 0 (rb_off_of field) a = true -> outside_rb field a = true.
+Proof.
+  unfold rb_off_of, outside_rb, in_range. destruct (table_entry field) as [e|]; [|reflexivity].
+  intros H. apply andb_true_iff in H. destruct H as [_ H]. apply N.ltb_lt in H.
+  apply negb_true_iff. apply andb_false_iff. left. apply N.leb_gt. lia.
+Qed.
+
+Theorem reattach_preserves_scheduling_state_thm : forall cpu flags base s,
+  m_ring (reattach cpu flags base s) = set_errno 0%Z (m_ring s) /\
+  (forall field, agree_on (outside_rb field) (m_ooo (reattach cpu flags base s) field) (m_ooo s field)) /\
+  (forall field, agree_on (in_range 0 (rb_off_of field)) (m_ooo (reattach cpu flags base s) field) (m_ooo s field)).
+Proof.
+  intros cpu flags base s.
+  pose proof (fold_keeps cpu flags base set_pointers_steps s steps_noreset_ok) as [[e He] Ho].
+  fold (set_pointers cpu flags base false s) in He, Ho. fold (reattach cpu flags base s) in He, Ho.
+  assert (Hz : errno (m_ring (reattach cpu flags base s)) = 0%Z).
+  { unfold reattach, set_pointers. destruct steps_shape as [cs ->]. cbn [fold_left]. reflexivity. }
+  split.
+  - rewrite He in *. cbn in Hz. subst e. reflexivity.
+  - split; [exact Ho|]. intros f a Ha. apply Ho. apply below_rb_outside. exact Ha.
+Qed.
+
+(* ------------------------------------------------------------------ pointers *)
+Theorem reattach_pointers_same_base_thm : forall cpu flags flags' base s garbage field,
+  m_ptrs (reattach cpu flags base s) field =
+  match ptr_offset field with Some o => base + o | None => m_ptrs s field end /\
+  (ptr_offset field <> None ->
+   m_ptrs (reattach cpu flags base s) field = m_ptrs (alloc cpu flags' base garbage) field).
+Proof.
+  intros. unfold reattach, alloc, set_pointers. destruct steps_shape as [cs ->]. cbn [fold_left].
+  split.
+  - cbn. destruct (ptr_offset field); [reflexivity|].
+    (* fields outside the table keep whatever the earlier steps left: those steps do not write pointers *)
+    cbn [sp_run]. destruct (find (fun c => fst (fst c) =? m_arch s) cs) as [[[id name] k]|]; [|reflexivity].
+    destruct (find_arch name) as [a|]; [|reflexivity].
+    unfold arch_init_run. destruct (negb (has_flags (m_features s) (ai_req a))); [reflexivity|].
+    generalize (ai_steps a). intros l. revert s. induction l as [|st l IH]; intros s; cbn [fold_left]; [reflexivity|].
+    rewrite IH. destruct st; cbn [arch_step_run]; try reflexivity.
+    destruct (find_variant (select_tier a (m_features s))) as [v|]; [|reflexivity].
+    unfold tier_init. destruct (negb (has_flags (m_features s) (v_req v))); [reflexivity|].
+    destruct (negb (k =? 0)); [|reflexivity]. destruct (v_calls_reset_ooo v); reflexivity.
+  - intros Hp. cbn. destruct (ptr_offset field); [reflexivity|congruence].
+Qed.
+
+(* the pointer layout: every manager lies inside the block, 64-byte aligned relative to the base,
+   after the IMB_MGR structure, and no two overlap *)
+Definition layout_entry_ok (p : string * N) : bool :=
+  match table_entry (fst p) with
+  | Some e => (first_ooo_off <=? snd p) && (snd p + oe_asize e <=? mb_mgr_size) &&
+              (snd p mod 64 =? 0) && (SIZEOF_IMB_MGR_N <=? snd p) && (oe_rb_off e + 8 <=? oe_asize e)
+  | None => false
+  end.
+
+Fixpoint disjoint_sorted (l : list (string * N)) : bool :=
+  match l with
+  | p :: ((q :: _) as t) =>
+      match table_entry (fst p) with Some e => (snd p + oe_asize e <=? snd q) | None => false end && disjoint_sorted t
+  | _ => true
+  end.
+
+Lemma pointer_layout_ok :
+  forallb layout_entry_ok ooo_offsets = true /\ disjoint_sorted ooo_offsets = true /\
+  map fst ooo_offsets = table_fields /\ nodupb table_fields = true.
+Proof. vm_compute. repeat split; reflexivity. Qed.
+
+(* ------------------------------------------------------------------ handlers *)
+Definition arch_id (a : arch_init) : N := match find_variant (ai_default a) with Some v => v_arch v | None => 0 end.
+
+Definition case_ok (a : arch_init) : bool :=
+  match find (fun c => fst (fst c) =? arch_id a) switch_cases with
+  | Some (_, name, k) => String.eqb name (ai_name a) && (k =? 0)
+  | None => false
+  end &&
+  (* every tier of the arch reports the arch id of the switch *)
+  forallb (fun p => match find_variant (snd p) with Some v => v_arch v =? arch_id a | None => false end) (ai_ladder a) &&
+  negb (arch_id a =? 0).
+
+Lemma cases_ok : forallb (fun a => case_ok a && match find_arch (ai_name a) with Some a' => String.eqb (ai_name a') (ai_name a) && (ai_req a' =? ai_req a) && arch_steps_ok a' && ladder_ok a' | None => false end) arch_inits = true.
+Proof. vm_compute. reflexivity. Qed.
+
+Definition mgr_fnptrs : list string :=
+  map l_path (filter (fun l => match l_kind l with KFnPtr => true | _ => false end) (r_leaves layout_IMB_MGR)).
+
+Lemma handlers_complete : forallb (fun v => forallb (fun f => mem f (v_bound v) || mem f user_fnptrs) mgr_fnptrs) variants = true.
+Proof. vm_compute. reflexivity. Qed.
+
+Lemma find_arch_self a : In a arch_inits -> NoDup (map ai_name arch_inits) -> find_arch (ai_name a) = Some a.
+Proof.
+  unfold find_arch. induction arch_inits as [|x l IH]; intros Hin Hnd; [destruct Hin|].
+  cbn [find]. destruct Hin as [->|Hin]; [rewrite String.eqb_refl; reflexivity|].
+  inversion Hnd; subst. destruct (String.eqb (ai_name x) (ai_name a)) eqn:E.
+  - apply String.eqb_eq in E. exfalso. apply H1. rewrite E. apply in_map. exact Hin.
+  - apply IH; assumption.
+Qed.
+
+Lemma arch_names_nodup : NoDup (map ai_name arch_inits).
+Proof. apply nodupb_NoDup. vm_compute. reflexivity. Qed.
+
+(* re-attaching binds the handlers of the variant selected by used_arch and by the flags STORED IN
+   THE BLOCK (init_*_internal runs before ptr->flags is overwritten) *)
+Theorem reattach_rebinds_handlers_thm : forall cpu flags base s a,
+  In a arch_inits -> m_arch s = arch_id a ->
+  has_flags (m_features s) (ai_req a) = true ->
+  has_flags (feature_adjust (m_flags s) cpu) (ai_req a) = true ->
+  m_bound (reattach cpu flags base s) = Some (variant_for cpu (m_flags s) a) /\
+  m_arch (reattach cpu flags base s) = m_arch s.
+Proof.
+  intros cpu flags base s a Ha Harch Hreq Hcpu.
+  pose proof cases_ok as H. rewrite forallb_forall in H. specialize (H a Ha).
+  apply andb_true_iff in H. destruct H as [Hc _].
+  pose proof arch_ok_all as H2. rewrite forallb_forall in H2. specialize (H2 a Ha).
+  apply andb_true_iff in H2. destruct H2 as [Hst Hlad].
+  unfold case_ok in Hc. apply andb_true_iff in Hc. destruct Hc as [Hc Hne]. apply andb_true_iff in Hc. destruct Hc as [Hc Htiers].
+  unfold reattach, set_pointers. unfold switch_cases in Hc. destruct steps_shape as [cs Hs]. rewrite Hs in *.
+  cbn [flat_map app] in Hc. rewrite app_nil_r in Hc. cbn [fold_left].
+  cbn [sp_run]. rewrite Harch.
+  destruct (find (fun c => fst (fst c) =? arch_id a) cs) as [[[id name] k]|]; [|discriminate].
+  apply andb_true_iff in Hc. destruct Hc as [Hn Hk]. apply String.eqb_eq in Hn. subst name.
+  rewrite (find_arch_self a Ha arch_names_nodup). rewrite Hk. cbn [negb].
+  destruct (arch_init_shape cpu a false s Hst Hreq) as (p & E & F & _ & _ & _ & _ & _ & _ & _ & _ & Hpa & _).
+  rewrite E. cbn [arch_step_run]. rewrite F.
+  destruct (select_tier_req a (feature_adjust (m_flags s) cpu) Hlad Hcpu) as (v & Hv & Hvr).
+  rewrite Hv. unfold tier_init. rewrite F, Hvr. cbn [negb]. cbn.
+  unfold variant_for. split.
+  - f_equal. unfold find_variant in Hv. apply find_some in Hv. destruct Hv as [_ Hv]. apply String.eqb_eq in Hv. exact Hv.
+  - (* the variant's arch id is the one of the switch case *)
+    unfold select_tier in Hv.
+    destruct (find (fun p0 => has_flags (feature_adjust (m_flags s) cpu) (fst p0)) (ai_ladder a)) as [q|] eqn:Eq.
+    + apply find_some in Eq. destruct Eq as [Hin _]. rewrite forallb_forall in Htiers. specialize (Htiers q Hin).
+      rewrite Hv in Htiers. apply N.eqb_eq in Htiers. congruence.
+    + unfold arch_id in *. rewrite Hv in *. congruence.
+Qed.
+
+(* ------------------------------------------------------------------ crash, re-attach, flush *)
+Notation SZ := SIZEOF_IMB_JOB.
+Notation NJ := IMB_MAX_JOBS.
+Notation MAXB := IMB_MAX_BURST_SIZE.
+Local Open Scope Z_scope.
+
+Lemma sz_pos : 0 < SZ. Proof. reflexivity. Qed.
+Lemma k_ge1 : 1 <= 8. Proof. lia. Qed.
+Lemma nj_pow2 : NJ = 2 ^ 8. Proof. reflexivity. Qed.
+
+Notation trace := (trace SZ NJ MAXB).
+Notation final := (final SZ NJ MAXB).
+Notation ops_ok := (ops_ok SZ NJ MAXB).
+Notation pending_count := (pending_count SZ NJ MAXB).
+Notation stepr := (stepr SZ NJ MAXB).
+Notation okr := (okr SZ NJ MAXB).
+Notation empty_at := (empty_at SZ NJ).
+
+(* every API call begins with imb_set_errno(state, 0): the error code left by re-attachment (or by
+   anything else) does not influence what a call does *)
+Lemma step3_errno e s o : step3 SZ NJ MAXB (set_errno e s) o = step3 SZ NJ MAXB s o.
+Proof. destruct o; reflexivity. Qed.
+
+Lemma op_ok_errno e s o : op_ok SZ NJ MAXB (set_errno e s) o = op_ok SZ NJ MAXB s o.
+Proof. unfold op_ok. rewrite step3_errno. destruct o; reflexivity. Qed.
+
+Lemma ops_ok_errno e s ops : ops_ok (set_errno e s) ops = ops_ok s ops.
+Proof.
+  destruct ops as [|o t]; [reflexivity|]. cbn [Ring.ops_ok]. rewrite op_ok_errno. unfold step. rewrite step3_errno. reflexivity.
+Qed.
+
+Lemma trace_errno e s ops : trace (set_errno e s) ops = trace s ops.
+Proof.
+  destruct ops as [|o t]; [reflexivity|]. cbn [RingProofs.trace]. unfold RingProofs.stepr, step. rewrite step3_errno. reflexivity.
+Qed.
+
+Lemma final_errno e s o t : final (set_errno e s) (o :: t) = final s (o :: t).
+Proof. cbn [RingProofs.final]. unfold RingProofs.stepr, step. rewrite step3_errno. reflexivity. Qed.
+
+Lemma ops_ok_app s a b : ops_ok s (a ++ b) = ops_ok s a && ops_ok (final s a) b.
+Proof.
+  revert s. induction a as [|o a IH]; intros s; cbn [app Ring.ops_ok RingProofs.final]; [reflexivity|].
+  rewrite IH, andb_assoc. reflexivity.
+Qed.
+
+Lemma trace_app s a b : trace s (a ++ b) = trace s a ++ trace (final s a) b.
+Proof.
+  revert s. induction a as [|o a IH]; intros s; cbn [app RingProofs.trace RingProofs.final]; [reflexivity|].
+  unfold RingProofs.stepr. destruct (step SZ NJ MAXB s o) as [s1 r] eqn:E. cbn [fst]. rewrite IH. reflexivity.
+Qed.
+
+Lemma final_app s a b : final s (a ++ b) = final (final s a) b.
+Proof. revert s. induction a as [|o a IH]; intros s; cbn [app RingProofs.final]; [reflexivity|]. apply IH. Qed.
+
+Lemma ops_ok_firstn s ops k : ops_ok s ops = true -> ops_ok s (firstn k ops) = true.
+Proof.
+  intros H. rewrite <- (firstn_skipn k ops) in H. rewrite ops_ok_app in H. apply andb_true_iff in H. tauto.
+Qed.
+
+Lemma all_accepted_app a b : all_accepted (a ++ b) = all_accepted a ++ all_accepted b.
+Proof. unfold all_accepted. apply flat_map_app. Qed.
+Lemma all_returned_app a b : all_returned (a ++ b) = all_returned a ++ all_returned b.
+Proof. unfold all_returned. apply flat_map_app. Qed.
+Lemma all_jobs_app a b : all_jobs (a ++ b) = all_jobs a ++ all_jobs b.
+Proof. unfold all_jobs. apply flat_map_app. Qed.
+
+Lemma flushes_accept_nothing s Ds : all_accepted (trace s (map Flush Ds)) = [].
+Proof.
+  revert s. induction Ds as [|D Ds IH]; intros s; cbn [map RingProofs.trace]; [reflexivity|].
+  destruct (stepr s (Flush D)) as [s1 r]. unfold all_accepted. cbn [flat_map fst snd accepted app]. apply IH.
+Qed.
+
+(* flushing [n] times when [n] jobs are pending hands back exactly [n] jobs *)
+Lemma flush_all_count s0 m : forall Ds pre,
+  empty_at s0 m -> ops_ok s0 (pre ++ map Flush Ds) = true ->
+  Z.of_nat (length Ds) <= pending_count s0 pre ->
+  length (all_returned (trace (final s0 pre) (map Flush Ds))) = length Ds.
+Proof.
+  induction Ds as [|D Ds IH]; intros pre He Hok Hn; [reflexivity|].
+  cbn [map]. change (Flush D :: map Flush Ds) with ([Flush D] ++ map Flush Ds).
+  rewrite trace_app, all_returned_app, app_length.
+  assert (Hok1 : ops_ok s0 (pre ++ [Flush D]) = true /\ ops_ok s0 ((pre ++ [Flush D]) ++ map Flush Ds) = true).
+  { cbn [map] in Hok. change (Flush D :: map Flush Ds) with ([Flush D] ++ map Flush Ds) in Hok. rewrite app_assoc in Hok.
+    split; [|exact Hok]. rewrite ops_ok_app in Hok. apply andb_true_iff in Hok. tauto. }
+  destruct Hok1 as [Hok1 Hok2].
+  assert (Hokpre : ops_ok s0 pre = true) by (rewrite ops_ok_app in Hok1; apply andb_true_iff in Hok1; tauto).
+  assert (Hokf : okr (final s0 pre) (Flush D) = true).
+  { rewrite ops_ok_app in Hok1. apply andb_true_iff in Hok1. destruct Hok1 as [_ H]. cbn [Ring.ops_ok] in H.
+    apply andb_true_iff in H. tauto. }
+  cbn [length] in Hn.
+  pose proof (flush_progress_thm SZ NJ 8 MAXB sz_pos k_ge1 nj_pow2 s0 m pre D He Hokpre Hokf) as Hprog.
+  destruct (flush_out_shape SZ NJ D (final s0 pre)) as (jo & Hshape).
+  assert (Hone : length (all_returned (trace (final s0 pre) [Flush D])) = 1%nat).
+  { cbn [RingProofs.trace]. unfold RingProofs.stepr, step in *. cbn [step3] in *.
+    destruct (flush SZ NJ D (final s0 pre)) as [[s1 o] b]. cbn [fst snd] in *. subst o.
+    unfold all_returned. cbn [flat_map snd]. rewrite app_nil_r.
+    destruct jo as [j|]; [reflexivity|]. exfalso. assert (pending_count s0 pre = 0) by (apply Hprog; reflexivity). lia. }
+  rewrite Hone. cbn [List.length Nat.add]. f_equal.
+  rewrite <- final_app. apply IH; [exact He|exact Hok2|].
+  (* pending after the flush = pending - 1 *)
+  unfold RingProofs.pending_count in *. rewrite trace_app, all_accepted_app, all_returned_app, !app_length, Hone.
+  assert (Hacc : all_accepted (trace (final s0 pre) [Flush D]) = []) by (apply (flushes_accept_nothing _ [D])).
+  rewrite Hacc. cbn [length]. lia.
+Qed.
+
+(* The C16 statement on the ring: stop a history anywhere between two calls, re-attach, flush:
+   every job in flight comes back, in submission order, completed; then the queue is empty, a
+   further flush returns nothing, and the ring is again an empty ring (so everything C05 proves
+   about managers as init leaves them holds for the history that follows). *)
+Theorem crash_flush_returns_all_in_order_thm :
+  forall (s0 : st) (m : Z) (ops : list op) (k : nat) (cpu flags base : N) (M : mgr) (Ds : list (list Z)),
+  empty_at s0 m -> ops_ok s0 ops = true ->
+  m_ring M = final s0 (firstn k ops) ->
+  let pre := firstn k ops in
+  let R := m_ring (reattach cpu flags base M) in
+  ops_ok R (map Flush Ds) = true ->
+  Z.of_nat (length Ds) = pending_count s0 pre ->
+  let tr := trace R (map Flush Ds) in
+  all_returned tr = skipn (length (all_returned (trace s0 pre))) (all_accepted (trace s0 pre)) /\
+  Forall (fun j => IMB_STATUS_COMPLETED <= jstat j) (all_jobs tr) /\
+  queue_sz SZ NJ (final R (map Flush Ds)) = 0 /\
+  (exists m', empty_at (final R (map Flush Ds)) m') /\
+  (forall D, snd (stepr (final R (map Flush Ds)) (Flush D)) = OJob None).
+Proof.
+  intros s0 m ops k cpu flags base M Ds He Hok HM pre R HokR Hlen tr.
+  destruct (reattach_preserves_scheduling_state_thm cpu flags base M) as [HR _].
+  fold R in HR. rewrite HM in HR. fold pre in HR.
+  assert (Hokpre : ops_ok s0 pre = true) by (apply ops_ok_firstn; exact Hok).
+  assert (Hokall : ops_ok s0 (pre ++ map Flush Ds) = true).
+  { rewrite ops_ok_app, Hokpre. cbn [andb]. rewrite HR, ops_ok_errno in HokR. exact HokR. }
+  assert (Htr : tr = trace (final s0 pre) (map Flush Ds)) by (unfold tr; rewrite HR; apply trace_errno).
+  assert (Hfin : final R (map Flush Ds) = final s0 (pre ++ map Flush Ds) \/ Ds = []).
+  { destruct Ds as [|D Ds']; [right; reflexivity|left]. rewrite final_app, HR. cbn [map]. apply final_errno. }
+  pose proof (fifo_history SZ NJ 8 MAXB sz_pos k_ge1 nj_pow2 s0 m (pre ++ map Flush Ds) He Hokall) as Hfifo.
+  cbv zeta in Hfifo. rewrite trace_app, all_returned_app, all_accepted_app, all_jobs_app, flushes_accept_nothing, app_nil_r in Hfifo.
+  destruct Hfifo as (Hpre_all & Hst & Hq & Hle).
+  pose proof (fifo_history SZ NJ 8 MAXB sz_pos k_ge1 nj_pow2 s0 m pre He Hokpre) as Hfpre. cbv zeta in Hfpre.
+  destruct Hfpre as (Hpre & _ & _ & Hlepre).
+  assert (Hcnt : length (all_returned (trace (final s0 pre) (map Flush Ds))) = length Ds).
+  { apply (flush_all_count s0 m Ds pre He Hokall). lia. }
+  set (A := all_accepted (trace s0 pre)) in *. set (Rp := all_returned (trace s0 pre)) in *.
+  set (Rf := all_returned (trace (final s0 pre) (map Flush Ds))) in *.
+  assert (HlenA : (length Rp + length Rf = length A)%nat).
+  { unfold RingProofs.pending_count in Hlen. fold A Rp in Hlen. lia. }
+  rewrite Htr. fold Rf.
+  assert (Hret : Rf = skipn (length Rp) A).
+  { rewrite app_length in Hpre_all. rewrite HlenA, firstn_all in Hpre_all.
+    rewrite <- Hpre_all. rewrite skipn_app, skipn_all, Nat.sub_diag. reflexivity. }
+  split; [exact Hret|]. split.
+  { apply Forall_app in Hst. tauto. }
+  assert (Hq0 : queue_sz SZ NJ (final s0 (pre ++ map Flush Ds)) = 0).
+  { rewrite Hq, app_length. fold Rf. lia. }
+  assert (HqR : queue_sz SZ NJ (final R (map Flush Ds)) = 0).
+  { destruct Hfin as [->| ->]; [exact Hq0|]. cbn [map RingProofs.final]. rewrite HR.
+    cbn [map app] in Hq0. rewrite app_nil_r in Hq0. unfold queue_sz, get_queue_sz in *. cbn. exact Hq0. }
+  split; [exact HqR|].
+  (* the final ring state, with its ghost *)
+  destruct (reach_inv SZ NJ 8 MAXB sz_pos k_ge1 nj_pow2 s0 m (pre ++ map Flush Ds) He Hokall) as (g & HI & Hacc & Hgret).
+  assert (Hg : gsub g = gret g).
+  { unfold gsub. rewrite Hacc, Hgret, trace_app, all_accepted_app, all_returned_app, flushes_accept_nothing, app_nil_r, app_length.
+    fold A Rp Rf. lia. }
+  destruct HI as (Hr & Hsz & Hnext & Hear & _). rewrite Hg, Z.eqb_refl in Hear.
+  assert (Hempty : exists m', empty_at (final s0 (pre ++ map Flush Ds)) m').
+  { exists ((gbase g + gret g) mod NJ). unfold RingProofs.empty_at. split; [exact Hear|]. split.
+    - rewrite Hnext, Hg. unfold sl, slot. reflexivity.
+    - apply Z.mod_pos_bound. reflexivity. }
+  assert (HemptyR : exists m', empty_at (final R (map Flush Ds)) m').
+  { destruct Hfin as [->| ->]; [exact Hempty|]. cbn [map RingProofs.final]. rewrite HR.
+    cbn [map app] in Hempty. rewrite app_nil_r in Hempty. destruct Hempty as (m' & H1 & H2 & H3).
+    exists m'. unfold RingProofs.empty_at. cbn. auto. }
+  split; [exact HemptyR|].
+  intros D. destruct HemptyR as (m' & He' & _). unfold RingProofs.stepr, step. cbn [step3 fst snd]. unfold flush.
+  cbn [earliest set_errno]. rewrite He'. reflexivity.
+Qed.
+
+Local Close Scope Z_scope.
+
+(* ------------------------------------------------------------------ pointer provenance (static part) *)
+Theorem no_library_pointers_in_ooo_thm :
+  forall r l, In r ooo_layouts -> In l (r_leaves r) ->
+    (l_kind l = KPtr -> ptr_class (r_name r) (l_path l) = Some PCaller \/ ptr_class (r_name r) (l_path l) = Some PManager) /\
+    l_kind l <> KFnPtr.
+Proof.
+  assert (H : forallb (fun r => forallb (leaf_ptr_ok (r_name r)) (r_leaves r)) ooo_layouts = true) by (vm_compute; reflexivity).
+  intros r l Hr Hl. rewrite forallb_forall in H. specialize (H r Hr). rewrite forallb_forall in H. specialize (H l Hl).
+  unfold leaf_ptr_ok in H. destruct (l_kind l); try discriminate; split; try discriminate; intros _.
+  all: try (destruct (ptr_class (r_name r) (l_path l)) as [[| |]|]; try discriminate; auto).
+Qed.
